@@ -9,7 +9,7 @@
 From Coq Require Import String.
 From Coq Require Import List Arith Bool Ring ZArith Relations.
 From TLV Require Import Base.Shape Base.PyList Base.Tensor Base.BigSum Model.WarmStart Proofs.WarmStartProofs
-  Proofs.WarmStartProofs2 Proofs.WarmStartTucker Proofs.WarmStartP2 Proofs.WarmStartEndToEnd Proofs.WarmStartSrc Proofs.WarmStartReq Proofs.WarmStartNorm Proofs.WarmStartHalsSem Proofs.WarmStartSrc2 Proofs.WarmStartCls.
+  Proofs.WarmStartProofs2 Proofs.WarmStartTucker Proofs.WarmStartP2 Proofs.WarmStartEndToEnd Proofs.WarmStartSrc Proofs.WarmStartReq Proofs.WarmStartNorm Proofs.WarmStartHalsSem Proofs.WarmStartSrc2 Proofs.WarmStartSrc3 Proofs.WarmStartCls.
 Import ListNotations.
 
 (* (i) the tensor represented by the initialisation, weights absorbed into the last factor *)
@@ -901,3 +901,76 @@ Theorem C14_tucker_init_translation_agrees : forall F : Type,
   tkd_start_agrees (tkd_start_expect_nn (F := F)) true true.
 Proof. exact (fun F => conj (tucker_init_expect_ok F) (tkd_start_expect_nn_ok F)). Qed.
 Print Assumptions C14_tucker_init_translation_agrees.
+
+(* ---- round 8 (Proofs/WarmStartSrc3.v).  (a) The tie of tucker's fixed-factor branch is semantic in the conditions of its two
+   comprehensions: `pick` (the comprehension over enumerate(factors)) evaluates its condition only at the positions of the list, and on
+   those positions `i in modes_fixed` is `i in fixed_factors`; a branch that selects the free modes by `i not in modes_fixed`, or the fixed
+   ones by `i not in modes`, IS the model (tk_tie2 proves it for the term regenerated from the source on every run). *)
+Theorem C14_pick_condition_ext : forall (M : Type) (k1 k2 : nat -> bool) (fs : list M) (off : nat),
+  (forall i, off <= i < off + length fs -> k1 i = k2 i) -> pick k1 off fs = pick k2 off fs.
+Proof. exact @pick_ext. Qed.
+Print Assumptions C14_pick_condition_ext.
+
+Theorem C14_picked_positions : forall (M : Type) (k : nat -> bool) (fs : list M) (off i : nat),
+  In i (map fst (pick k off fs)) <-> (off <= i < off + length fs /\ k i = true).
+Proof. exact @pick_fst_In. Qed.
+Print Assumptions C14_picked_positions.
+
+Theorem C14_tucker_branch_by_mode_lists_agrees : forall (F : Type) (zero : F) (add mul : F -> F -> F),
+  tucker_agrees zero add mul (tucker_expect_by_modes zero add mul) /\ tucker_agrees zero add mul (tucker_expect_by_free zero add mul).
+Proof. exact (fun F zero add mul => conj (tucker_expect_by_modes_ok F zero add mul) (tucker_expect_by_free_ok F zero add mul)). Qed.
+Print Assumptions C14_tucker_branch_by_mode_lists_agrees.
+
+(* (b) partial_tucker's main loop is modelled (pt_sweep / pt_iterate / partial_tucker_model): the update of a factor, the core update, the
+   mask imputation, the error bookkeeping and the stopping rule are arbitrary functions of the whole state; the loop writes position
+   index = 0, 1, ... of the list it was handed, once per entry of `modes`, and nothing else.  The sweep's write position is regenerated from
+   the source on every run (pt_sweep_src_ok). *)
+Theorem C14_partial_tucker_sweep_writes : forall (F X : Type) (upd : nat -> nat -> nat -> pts F X -> matrix (F := F)) (it : nat) (d : matrix (F := F))
+  (modes : list nat) (index : nat) (s : pts F X),
+  length (ptf (pt_sweep upd it index modes s)) = length (ptf s) /\
+  forall j, (j < index \/ index + length modes <= j) -> nth j (ptf (pt_sweep upd it index modes s)) d = nth j (ptf s) d.
+Proof. exact (fun F X upd it d modes index s => conj (pt_sweep_length upd it modes index s) (pt_sweep_other upd it d modes index s)). Qed.
+Print Assumptions C14_partial_tucker_sweep_writes.
+
+Theorem C14_partial_tucker_model_shape : forall (F X : Type) pre upd corefn post stop (x0 : tensor F -> list nat -> list (matrix (F := F)) -> X)
+  (budget : nat) (c : tensor F) (modes : list nat) (free : list (matrix (F := F))),
+  length (snd (partial_tucker_model pre upd corefn post stop x0 budget c modes free)) = length free /\
+  partial_tucker_model pre upd corefn post stop x0 0 c modes free = (c, free) /\
+  forall j d, length modes <= j ->
+    nth j (snd (partial_tucker_model pre upd corefn post stop x0 budget c modes free)) d = nth j free d.
+Proof.
+  exact (fun F X pre upd corefn post stop x0 budget c modes free =>
+    conj (partial_tucker_model_length pre upd corefn post stop x0 budget c modes free)
+      (conj (partial_tucker_model_zero_budget pre upd corefn post stop x0 c modes free)
+        (fun j d H => pt_iterate_other pre upd corefn post stop modes d j H budget 0 (mkpts c free (x0 c modes free))))).
+Qed.
+Print Assumptions C14_partial_tucker_model_shape.
+
+(* tucker(fixed_factors=...) around the MODELLED partial_tucker: no hypothesis on the inner routine is left.  For every branch function that
+   agrees with the model (the regenerated one: tucker_hoi_fixed_src), every HOI update rule, core update, mask imputation, stopping rule and
+   budget, the factors of the fixed modes come back Leibniz-equal to the supplied ones *)
+Theorem C14_tucker_hoi_keeps_fixed : forall (F X : Type) (zero : F) (add mul : F -> F -> F) pre upd corefn post stop
+  (x0 : tensor F -> list nat -> list (matrix (F := F)) -> X) (tk : tucker_ty (F := F)) (budget : nat) (core : tensor F)
+  (fs : list (matrix (F := F))) (fixed : list nat),
+  tucker_agrees zero add mul tk -> fixed <> [] -> NoDup fixed -> (forall e, In e fixed -> e < length fs) ->
+  exists c out, tk core fs fixed (partial_tucker_model pre upd corefn post stop x0 budget) = Ok (c, out) /\ length out = length fs /\
+    forall e d, In e fixed -> nth e out d = nth e fs d.
+Proof. exact @tucker_hoi_keeps_fixed. Qed.
+Print Assumptions C14_tucker_hoi_keeps_fixed.
+
+Theorem C14_partial_tucker_sweep_translation_agrees : forall (F X : Type) upd it modes (s : pts F X),
+  pt_sweep_expect upd it modes s = pt_sweep upd it 0 modes s.
+Proof. exact pt_sweep_expect_ok. Qed.
+Print Assumptions C14_partial_tucker_sweep_translation_agrees.
+
+Theorem C14_partial_tucker_write_at_mode_foil :
+  ~ (forall upd it modes (s : pts Z unit), pt_sweep_at_mode upd it modes s = pt_sweep upd it 0 modes s).
+Proof. exact pt_sweep_at_mode_differs. Qed.
+Print Assumptions C14_partial_tucker_write_at_mode_foil.
+
+Example C14_tucker_hoi_nonvacuous :
+  tucker_fixed 0%Z Z.add Z.mul (mk [1; 1] [1%Z]) [[[1%Z]]; [[5%Z]]] [0]
+    (partial_tucker_model (X := unit) (fun _ _ => tt) (fun _ _ _ _ => [[9%Z]]) (fun _ _ s => mk [1; 1] (map (Z.mul 2) (data (ptc s))))
+       (fun _ _ => tt) (fun _ _ => false) (fun _ _ _ => tt) 2)
+  = Ok (mk [1; 1] [4%Z], [[[1%Z]]; [[9%Z]]]).
+Proof. exact tucker_hoi_example. Qed.
